@@ -9,7 +9,8 @@ theorem setPc_other (f : Nat → Pc) (t x : Nat) (p : Pc) (h : x ≠ t) : setPc 
 def okOrder : List Field → Bool
   | [] => true
   | f :: rest =>
-    (if f == Field.lock then !(rest.contains Field.guards) && !(rest.contains Field.lock) else true) && okOrder rest
+    (if f == Field.lock then !(rest.contains Field.guards) && !(rest.contains Field.lock) else true) &&
+    (f != Field.unknown) && okOrder rest
 
 def SuffixOK (rest : List Field) : Prop :=
   okOrder rest = true ∧ (rest.contains Field.guards = true → rest.contains Field.lock = true)
@@ -20,6 +21,8 @@ theorem not_mem_of_contains_false {l : List Field} {a : Field} (h : l.contains a
 theorem SuffixOK_tail (f : Field) (rest : List Field) (h : SuffixOK (f :: rest)) : SuffixOK rest := by
   obtain ⟨h1, h2⟩ := h
   simp only [okOrder, Bool.and_eq_true] at h1
+  obtain ⟨⟨h1a, _⟩, h1b⟩ := h1
+  have h1 : (if (f == Field.lock) = true then !rest.contains Field.guards && !rest.contains Field.lock else true) = true ∧ okOrder rest = true := ⟨h1a, h1b⟩
   refine ⟨h1.2, ?_⟩
   intro hg
   have hgm : Field.guards ∈ rest := List.contains_iff_mem.mp hg
@@ -36,7 +39,7 @@ theorem SuffixOK_after_lock (rest : List Field) (h : SuffixOK (Field.lock :: res
     rest.contains Field.guards = false ∧ rest.contains Field.lock = false := by
   have := h.1
   simp only [okOrder, Bool.and_eq_true] at this
-  have h1 := this.1
+  have h1 := this.1.1
   simp at h1
   constructor
   · cases hc : rest.contains Field.guards with
@@ -51,7 +54,8 @@ def GoodParams (p : Params) : Prop :=
   p.newTakesLock = true ∧ p.preventTakesLock = true ∧
   SuffixOK p.injectorRelease ∧ SuffixOK p.preventerRelease ∧
   p.injectorRelease.contains Field.lock = true ∧ p.preventerRelease.contains Field.lock = true ∧
-  p.injectorRelease.contains Field.guards = true
+  p.injectorRelease.contains Field.guards = true ∧
+  (∀ path ∈ p.injectorPanicPaths, SuffixOK path ∧ path.contains Field.lock = true ∧ path.contains Field.guards = true)
 
 theorem takesLock_good (p : Params) (hp : GoodParams p) (k : Kind) : takesLock p k = true := by
   cases k <;> simp [takesLock, hp.1, hp.2.1]
@@ -66,6 +70,24 @@ theorem releaseOrder_lock (p : Params) (hp : GoodParams p) (k : Kind) :
   cases k
   · exact hp.2.2.2.2.1
   · exact hp.2.2.2.2.2.1
+
+/-- whatever micro-step sequence a release follows, it is well ordered, unlocks, and (for an
+    injector) restores -/
+theorem chosenOrder_ok (p : Params) (hp : GoodParams p) (k : Kind) (how : How) (alt : Option Nat) (ord : List Field)
+    (h : chosenOrder p k how alt = some ord) :
+    SuffixOK ord ∧ ord.contains Field.lock = true ∧ (k = Kind.injector → ord.contains Field.guards = true) := by
+  cases alt with
+  | none =>
+    simp only [chosenOrder] at h; injection h with h; subst h
+    refine ⟨releaseOrder_ok p hp k, releaseOrder_lock p hp k, ?_⟩
+    intro hk; subst hk; exact hp.2.2.2.2.2.2.1
+  | some i =>
+    simp only [chosenOrder] at h
+    split at h
+    · have hm : ord ∈ p.injectorPanicPaths := List.mem_of_getElem? h
+      obtain ⟨a, b, c⟩ := hp.2.2.2.2.2.2.2 ord hm
+      exact ⟨a, b, fun _ => c⟩
+    · cases h
 
 /-- the inductive invariant -/
 structure Inv (s : LState) : Prop where
@@ -188,19 +210,23 @@ theorem inv_step (p : Params) (hp : GoodParams p) (s s' : LState) (a : Action)
           by_cases hxt : x = t
           · subst hxt; simp [setPc_same] at hx
           · simp only [setPc_other _ _ _ _ hxt] at hx; exact hi.relKind x k' r h hx
-  | beginRelease t how =>
+  | beginRelease t how alt =>
     simp only [step] at hs
     cases hpc : s.pcs t with
     | idle => simp [hpc] at hs
     | releasing k' i r h => simp [hpc] at hs
     | holding k i =>
       simp only [hpc] at hs
+      cases hord : chosenOrder p k how alt with
+      | none => simp [hord] at hs
+      | some ord =>
+      simp only [hord] at hs
       injection hs with hs; subst hs
-      have hsfx := releaseOrder_ok p hp k
+      obtain ⟨hsfx, hordlock, hordguards⟩ := chosenOrder_ok p hp k how alt ord hord
       have hlk : holdsLock (s.pcs t) = true := by rw [hpc]; rfl
       have hown := hi.lockOwner t hlk
-      have hnew : holdsLock (Pc.releasing k i (releaseOrder p k) how) = true := by
-        simp only [holdsLock]; exact releaseOrder_lock p hp k
+      have hnew : holdsLock (Pc.releasing k i ord how) = true := by
+        simp only [holdsLock]; exact hordlock
       constructor
       · intro x hx
         by_cases hxt : x = t
@@ -220,7 +246,7 @@ theorem inv_step (p : Params) (hp : GoodParams p) (s s' : LState) (a : Action)
           | false => cases k <;> simp [fakeLive] at hl
           | true =>
             have hk := hi.instKind x k hpc; subst hk
-            simp only [fakeLive, releaseOrder]; exact hp.2.2.2.2.2.2
+            simp only [fakeLive]; exact hordguards rfl
         · simp only [setPc_other _ _ _ _ hxt]; exact hi.fnLive x hx
       · intro x hx
         by_cases hxt : x = t
@@ -454,6 +480,43 @@ theorem inv_step (p : Params) (hp : GoodParams p) (s s' : LState) (a : Action)
             by_cases hxt : x = t
             · subst hxt; simp only [setPc_same] at hx; injection hx with h1 h2 h3 h4; subst h1 h2
               exact hi.relKind x _ (Field.other :: r) how hpc
+            · simp only [setPc_other _ _ _ _ hxt] at hx; exact hi.relKind x k' r' h hx
+        | unknown =>
+          simp only [hpc] at hs
+          injection hs with hs; subst hs
+          have hlsame : holdsLock (Pc.releasing k i r how) = holdsLock (s.pcs t) := by
+            rw [hpc]; simp [holdsLock, List.contains_cons]
+          have hfsame : fakeLive (Pc.releasing k i r how) = fakeLive (s.pcs t) := by
+            rw [hpc]; cases i <;> simp [fakeLive, List.contains_cons]
+          constructor
+          · intro x hx
+            by_cases hxt : x = t
+            · subst hxt; simp only [setPc_same] at hx; rw [hlsame] at hx; exact hi.lockOwner x hx
+            · simp only [setPc_other _ _ _ _ hxt] at hx; exact hi.lockOwner x hx
+          · intro x hx
+            by_cases hxt : x = t
+            · subst hxt; simp only [setPc_same]; rw [hlsame]; exact hi.ownerLock x hx
+            · simp only [setPc_other _ _ _ _ hxt]; exact hi.ownerLock x hx
+          · intro x hx
+            by_cases hxt : x = t
+            · subst hxt; simp only [setPc_same]; rw [hfsame]; exact hi.fnLive x hx
+            · simp only [setPc_other _ _ _ _ hxt]; exact hi.fnLive x hx
+          · intro x hx
+            by_cases hxt : x = t
+            · subst hxt; simp only [setPc_same] at hx ⊢; rw [hfsame] at hx; rw [hlsame]; exact hi.liveFn x hx
+            · simp only [setPc_other _ _ _ _ hxt] at hx ⊢; exact hi.liveFn x hx
+          · intro x k' i' r' h hx
+            by_cases hxt : x = t
+            · subst hxt; simp only [setPc_same] at hx; injection hx with h1 h2 h3 h4; subst h3; exact hsfx'
+            · simp only [setPc_other _ _ _ _ hxt] at hx; exact hi.suffix x k' i' r' h hx
+          · intro x k' hx
+            by_cases hxt : x = t
+            · subst hxt; simp [setPc_same] at hx
+            · simp only [setPc_other _ _ _ _ hxt] at hx; exact hi.instKind x k' hx
+          · intro x k' r' h hx
+            by_cases hxt : x = t
+            · subst hxt; simp only [setPc_same] at hx; injection hx with h1 h2 h3 h4; subst h1 h2
+              exact hi.relKind x _ (Field.unknown :: r) how hpc
             · simp only [setPc_other _ _ _ _ hxt] at hx; exact hi.relKind x k' r' h hx
 
 theorem run_cons_some (p : Params) (s s' : LState) (a : Action) (as : List Action)
